@@ -234,6 +234,35 @@ def subGeneral (prec1 : Nat) (ud vd : List Nat) (exp : Int) (ediff : Int) : List
         let (rd, e) := stripHigh (subLimbs up vp ediff.toNat) exp   -- :319-402
         (rd, e, false)
 
+/-- sub.c:199-258: with an implicit 1 one limb above both operands (little-endian `up`, `vp`, aligned at the
+    top, exponent e1), compute B^n + u·B^(n−usize) − v·B^(n−vsize), n = max(usize, vsize).
+    Returns (limbs, exp): n+1 limbs and exp e1+1 when the top 1 survives, else n limbs and exp e1. -/
+def closeLimbs (up vp : List Nat) (e1 : Int) : List Nat × Int :=
+  let usize := up.length
+  let vsize := vp.length
+  if vsize = 0 then (up ++ [1], e1 + 1)        -- :202-212
+  else if usize = 0 then                       -- :213-228
+    let t := wrapSub vsize 0 (val vp)          -- ~v + 1
+    if val vp = 0 then (t ++ [1], e1 + 1) else (t, e1)
+  else if usize ≥ vsize then                   -- :229-238
+    let size := usize - vsize
+    let t := up.take size ++ wrapSub vsize (val (up.drop size)) (val vp)
+    if val (up.drop size) ≥ val vp then (t ++ [1], e1 + 1) else (t, e1)   -- :252-257
+  else                                         -- :239-251
+    let size := vsize - usize
+    let t := wrapSub vsize (val up * B ^ size) (val vp)
+    if val up * B ^ size ≥ val vp then (t ++ [1], e1 + 1) else (t, e1)
+
+/-- sub.c:179-259 after the 000/fff run: `ur`, `vr` most significant first -/
+def subCloseFin (rprec : Nat) (ur vr : List Nat) (e : Int) : List Nat × Int :=
+  -- :179-186
+  let vr1 := if ur.isEmpty then vr.dropWhile (· == B - 1) else vr
+  let e1 := e - ((vr.length - vr1.length : Nat) : Int)
+  let up := (ur.take rprec).reverse            -- :188-192
+  let vp := (vr1.take rprec).reverse           -- :193-197
+  let (tp, e2) := closeLimbs up vp e1
+  stripHigh tp e2                              -- :395-402
+
 /-- sub.c:170-259: the `x+1 000… / x fff…` path.  `ur`, `vr` most significant first, already past the
     differing top limb; rprec = PREC(r) (= prec-1 of the C).  Returns (limbs, exp). -/
 def subClose (rprec : Nat) : List Nat → List Nat → Int → List Nat × Int
@@ -241,70 +270,58 @@ def subClose (rprec : Nat) : List Nat → List Nat → Int → List Nat × Int
       if v = B - 1 then subClose rprec us vs (e - 1)      -- :171-177
       else subCloseFin rprec (0 :: us) (v :: vs) e
   | us, vs, e => subCloseFin rprec us vs e
-where
-  subCloseFin (rprec : Nat) (ur vr : List Nat) (e : Int) : List Nat × Int :=
-    -- :179-186
-    let vr1 := if ur.isEmpty then vr.dropWhile (· == B - 1) else vr
-    let e1 := e - ((vr.length - vr1.length : Nat) : Int)
-    let up := (ur.take rprec).reverse            -- :188-192
-    let vp := (vr1.take rprec).reverse           -- :193-197
-    let usize := up.length
-    let vsize := vp.length
-    let (tp, e2) : List Nat × Int :=
-      if vsize = 0 then (up ++ [1], e1 + 1)      -- :202-212
-      else if usize = 0 then                     -- :213-228
-        let t := wrapSub vsize 0 (val vp)        -- ~v + 1
-        if val vp = 0 then (t ++ [1], e1 + 1) else (t, e1)
-      else if usize ≥ vsize then                 -- :229-238
-        let size := usize - vsize
-        let t := up.take size ++ wrapSub vsize (val (up.drop size)) (val vp)
-        if val (up.drop size) ≥ val vp then (t ++ [1], e1 + 1) else (t, e1)   -- :252-257
-      else                                       -- :239-251
-        let size := vsize - usize
-        let t := wrapSub vsize (val up * B ^ size) (val vp)
-        if val up * B ^ size ≥ val vp then (t ++ [1], e1 + 1) else (t, e1)
-    stripHigh tp e2                              -- :395-402
 
-/-- sub.c:65-411 for operands of equal sign, both non-zero.  `negate0` = (usize < 0).
-    Returns the result. -/
+/-- sub.c:136-155, ediff = 0 and the scan stopped at differing top limbs (`ur`, `vr` most significant first,
+    exponent e): order so that U has the larger top limb, then `general_case` or the x+1/x path. -/
+def subDiffer (prec : Nat) (ur vr : List Nat) (e : Int) : List Nat × Int × Bool :=
+  if ur.headD 0 < vr.headD 0 then                -- :136-145 MPN_SRCPTR_SWAP, negate ^= 1
+    if vr.headD 0 ≠ (ur.headD 0 + 1) % B then    -- :150 goto general_case
+      let (rd, e', sw) := subGeneral (prec + 1) vr.reverse ur.reverse e 0
+      (rd, e', !sw)
+    else
+      let (rd, e') := subClose prec vr.tail ur.tail (e - 1)   -- :152-154
+      (rd, e', true)
+  else
+    if ur.headD 0 ≠ (vr.headD 0 + 1) % B then
+      subGeneral (prec + 1) ur.reverse vr.reverse e 0
+    else
+      let (rd, e') := subClose prec ur.tail vr.tail (e - 1)
+      (rd, e', false)
+
+/-- sub.c:156-168, ediff = 1: the `1 000… / 0 fff…` test -/
+def subOne (prec : Nat) (ud : List Nat) (uexp : Int) (vd : List Nat) : List Nat × Int × Bool :=
+  let ur := ud.reverse
+  -- :162-164
+  if ur.headD 0 ≠ 1 ∨ topLimb vd ≠ B - 1 ∨ (ud.length ≥ 2 ∧ ur.tail.headD 0 ≠ 0) then
+    subGeneral (prec + 1) ud vd uexp 1
+  else
+    let (rd, e') := subClose prec ur.tail vd.reverse (uexp - 1)   -- :166-167
+    (rd, e', false)
+
+/-- sub.c:89-403 after the operands are ordered by exponent (uexp ≥ vexp); equal signs, both non-zero.
+    Returns (limbs, exp, flip): u − v = (flip ? −1 : 1) · limbs · B^(exp − |limbs|), up to the truncation error. -/
+def subCore (prec : Nat) (ud : List Nat) (uexp : Int) (vd : List Nat) (vexp : Int) : List Nat × Int × Bool :=
+  let ediff : Int := uexp - vexp                 -- :87
+  if ediff = 0 then
+    match scan ud.reverse vd.reverse uexp with
+    | .uGone vr e =>                             -- :106-125 (negate ^= 1)
+        let (rd, e') := cancellation (prec + 1) vr e
+        (rd, e', true)
+    | .vGone ur e =>                             -- :126-131
+        let (rd, e') := cancellation (prec + 1) ur e
+        (rd, e', false)
+    | .differ ur vr e => subDiffer prec ur vr e
+  else if ediff = 1 then subOne prec ud uexp vd
+  else subGeneral (prec + 1) ud vd uexp ediff
+
+/-- sub.c:65-411 for operands of equal sign, both non-zero.  `negate0` = (usize < 0). -/
 def subMag (prec : Nat) (negate0 : Bool) (u v : F) : F :=
   -- :71-78 make U the operand with the largest exponent
   let swap := u.exp < v.exp
-  let (ud, uexp, vd, vexp) := if swap then (v.d, v.exp, u.d, u.exp) else (u.d, u.exp, v.d, v.exp)
-  let negate := negate0 != swap
-  let prec1 := prec + 1                          -- :85
-  let ediff : Int := uexp - vexp                 -- :87
-  let fin (negate : Bool) (rd : List Nat) (e : Int) : F :=      -- :405-409 done
-    ⟨prec, if negate then -(rd.length : Int) else rd.length, if rd.length = 0 then 0 else e, rd⟩
-  let general (negate : Bool) (ud vd : List Nat) (e : Int) : F :=
-    let (rd, e', sw) := subGeneral prec1 ud vd e ediff
-    fin (negate != sw) rd e'
-  if ediff = 0 then
-    match scan ud.reverse vd.reverse uexp with
-    | .uGone vr e =>                             -- :106-125
-        let (rd, e') := cancellation prec1 vr e
-        fin (!negate) rd e'
-    | .vGone ur e =>                             -- :126-131
-        let (rd, e') := cancellation prec1 ur e
-        fin negate rd e'
-    | .differ ur vr e =>
-        -- :136-145
-        let lt := ur.headD 0 < vr.headD 0
-        let (ur, vr) := if lt then (vr, ur) else (ur, vr)
-        let negate := negate != lt
-        if ur.headD 0 ≠ (vr.headD 0 + 1) % B then general negate ur.reverse vr.reverse e   -- :150
-        else
-          let (rd, e') := subClose prec ur.tail vr.tail (e - 1)   -- :152-154
-          fin negate rd e'
-  else if ediff = 1 then
-    let ur := ud.reverse
-    -- :162-164
-    if ur.headD 0 ≠ 1 ∨ topLimb vd ≠ B - 1 ∨ (ud.length ≥ 2 ∧ ur.tail.headD 0 ≠ 0) then
-      general negate ud vd uexp
-    else
-      let (rd, e') := subClose prec ur.tail vd.reverse (uexp - 1)   -- :166-167
-      fin negate rd e'
-  else general negate ud vd uexp
+  let (rd, e, flip) := if swap then subCore prec v.d v.exp u.d u.exp else subCore prec u.d u.exp v.d v.exp
+  let negate := (negate0 != swap) != flip
+  -- :405-409 done
+  ⟨prec, if negate then -(rd.length : Int) else rd.length, if rd.length = 0 then 0 else e, rd⟩
 
 /-- add.c:66-175 (equal signs, non-zero) -/
 def addSame (prec : Nat) (u v : F) : F :=
